@@ -58,6 +58,9 @@ MUTATIONS = [
  ('m38', 'C15', 'src/storage/zarr/async_impl.rs', r's/&self\.arrays\.warmup_param_arrays\[key\]\n                \} else \{\n                    &self\.arrays\.sample_param_arrays\[key\]\n                \};\n                store_zarr_chunk_sync\(&self\.rt_handle, array, temp_chunk, self\.chain\)\?;\n            \}\n        \}\n\n        \/\/ Join all pending writes/\&self.arrays.sample_param_arrays[key]\n                } else {\n                    \&self.arrays.warmup_param_arrays[key]\n                };\n                store_zarr_chunk_sync(\&self.rt_handle, array, temp_chunk, self.chain)?;\n            }\n        }\n\n        \/\/ Join all pending writes/', 'async flush writes partial statistic chunks into the array of the other phase'),
  ('m39', 'C15', 'src/storage/zarr/sync_impl.rs', r's/            self\.last_sample_was_warmup = false;\n        \}\n\n        for \(name, value\) in stats/        }\n\n        for (name, value) in stats/', 'sync backend never leaves the warm-up phase (flush keeps writing partial chunks into the warm-up arrays)'),
  ('m40', 'C15', 'src/storage/zarr/sync_impl.rs', r's/let array = if is_warmup \{\n                &self\.arrays\.warmup_draw_arrays\[name\]\n            \} else \{\n                &self\.arrays\.sample_draw_arrays\[name\]/let array = if !is_warmup {\n                \&self.arrays.warmup_draw_arrays[name]\n            } else {\n                \&self.arrays.sample_draw_arrays[name]/', 'sync backend writes full draw chunks into the array of the other phase'),
+ ('m41', 'C18', 'src/math/cpu_math.rs', r's/let coeff_p = 2\.0 \* zeta;/let coeff_p = zeta;/', 'ESH update: weight of the old momentum halved'),
+ ('m42', 'C18', 'src/math/cpu_math.rs', r's/let arg = momentum_proj \+ \(1\.0 - momentum_proj\) \* zeta \* zeta;/let arg = momentum_proj + (1.0 - momentum_proj) * zeta;/', 'ESH update: reported kinetic-energy change uses zeta instead of zeta^2'),
+ ('m43', 'C18', 'src/math/cpu_math.rs', r's/let delta = step_size \* grad_norm \/ dims_m1;/let delta = step_size * grad_norm * dims_m1;/', 'ESH update: delta scaled by (n-1) instead of 1\/(n-1)'),
  ('e01', 'C18', 'src/mclmc.rs', r's/&& self.draw_count == self.switch_draw/&& self.draw_count >= self.switch_draw/', 'EQUIVALENT on reachable states: must not be flagged'),
  ('e02', 'C08', 'src/math/cpu_math.rs', r's/\*mean \+= diff \* diff_scale;\n                \*var \+= diff \* diff;/*mean += diff * diff_scale;\n                *var += diff * (x - *mean);/', 'EQUIVALENT for the property (ratio of variances unchanged): must not be flagged'),
 ]
